@@ -39,6 +39,13 @@ enum MOp {
     TimerCancelled,
     /// start_query(), stop_query(), query_stopped() from the calling thread
     FlagCalls,
+    /// the knowledge base is changed between queries, through add_rules or directly through the
+    /// public HashMap type: kind 0 add_rules on an existing predicate, 1 remove + insert of a
+    /// predicate's clause vector, 2 the whole knowledge base replaced by a rebuilt one, 3 insert of a
+    /// new predicate. All query handles are dropped first (they borrow the knowledge base).
+    KbMutate { kind: u64, q: usize },
+    /// parse_rule / parse_query on generated and hand-picked texts
+    ParseTexts { seed: u64 },
 }
 
 struct Handle<'a> {
@@ -281,7 +288,97 @@ fn make_scenario(seed: u64, part: &str, index: u64) -> (Scenario, Vec<MOp>) {
             Op::Drop { .. } => mops.push(MOp::Q(op.clone())),
         }
     }
+    // a knowledge base that changes between queries (one scenario in three)
+    if rng.chance(1, 3) {
+        let news: Vec<(usize, usize)> = mops
+            .iter()
+            .enumerate()
+            .filter_map(|(i, m)| if let MOp::Q(Op::New { q, .. }) = m { Some((i, *q)) } else { None })
+            .collect();
+        if news.len() >= 1 {
+            let (at, q) = *rng.pick(&news);
+            // query the predicate, change the knowledge base, query it again
+            let kind = rng.below(4);
+            let h = 300;
+            let extra = vec![
+                MOp::Q(Op::New { h, q }),
+                MOp::Q(Op::Next { h }),
+                MOp::KbMutate { kind, q },
+                MOp::Q(Op::New { h: h + 1, q }),
+                MOp::Q(Op::Next { h: h + 1 }),
+                MOp::Q(Op::Next { h: h + 1 }),
+            ];
+            // only for queries that are cheap to step
+            if scn.queries[q].class == QueryClass::Finite {
+                let tail = mops.split_off(at);
+                mops.extend(extra);
+                mops.extend(tail);
+            }
+        }
+    }
+    // the parsers (one scenario in two)
+    if rng.chance(1, 2) {
+        let at = rng.usize_below(mops.len() + 1);
+        mops.insert(at, MOp::ParseTexts { seed: rng.next_u64() });
+    }
     (scn, mops)
+}
+
+fn parse_texts(seed: u64, scn: &Scenario, t: &mut Tally) {
+    let mut rng = Rng::new(seed);
+    // generated rule texts (the file-load simulator's generator: atoms with spaces, quoted strings,
+    // floats, lists with tails, infix operators) — whatever the parser says is fine, it must only
+    // say it without undefined behaviour
+    let prog = simcore::textgen::gen_program(&mut rng, &|_| true);
+    for r in prog.rules.iter().take(6) {
+        let _ = std::panic::catch_unwind(|| parse_rule(r).is_ok());
+        t.parsed += 1;
+    }
+    for text in ["Henry V", "Vitamin C", "Mr T", "$X = Henry V", "[Mr T, Harold II | $T]", "$X = $Y + 7", "$X <= 2.5", "f(a, [b | $T], \"q, r\")", "x", "$_", "[]", "[a]"] {
+        if rng.chance(1, 2) {
+            let _ = std::panic::catch_unwind(|| parse_term(text).is_ok());
+            let _ = std::panic::catch_unwind(|| parse_subgoal(text).is_ok());
+            t.parsed += 1;
+        }
+    }
+    // the scenario's own clauses and queries, as text
+    for c in scn.clauses.iter().take(5) {
+        let text = c.to_string();
+        let _ = std::panic::catch_unwind(|| parse_rule(&text).is_ok());
+        t.parsed += 1;
+    }
+    for q in &scn.queries {
+        let text = q.to_string();
+        let _ = std::panic::catch_unwind(|| parse_query(&text).is_ok());
+        t.parsed += 1;
+    }
+}
+
+fn mutate_kb(kb: &mut KnowledgeBase, scn: &Scenario, kind: u64, q: usize, t: &mut Tally) {
+    let spec = &scn.queries[q];
+    let key = spec.key();
+    let extra = Clause { functor: spec.functor.clone(), args: (0..spec.args.len()).map(|i| Term::Int(40 + i as i64)).collect(), body: None };
+    match kind {
+        0 => add_rules(kb, vec![extra.to_suiron()]),
+        1 => {
+            let mut v = kb.remove(&key).unwrap_or_default();
+            v.push(extra.to_suiron());
+            kb.insert(key, v);
+        }
+        2 => {
+            let mut clauses = scn.clauses.clone();
+            clauses.push(extra);
+            *kb = build_kb(&clauses);
+        }
+        _ => {
+            let fresh = Clause { functor: "zz_new".into(), args: vec![Term::Int(1)], body: None };
+            kb.insert(fresh.key(), vec![fresh.to_suiron()]);
+            let mut v = kb.remove(&key).unwrap_or_default();
+            v.truncate(1);
+            kb.insert(key, v);
+        }
+    }
+    t.kb_mutations += 1;
 }
 
 fn format_answer(goal: &Goal, ss: &Rc<SubstitutionSet>) -> String {
@@ -300,11 +397,32 @@ struct Tally {
     solve_timeouts: u64,
     reasks_after_none: u64,
     cut_rules: u64,
+    kb_mutations: u64,
+    parsed: u64,
 }
 
 fn run_scenario(scn: &Scenario, mops: &[MOp], t: &mut Tally) {
-    let kb = build_kb(&scn.clauses);
+    let mut kb = build_kb(&scn.clauses);
     t.cut_rules += scn.clauses.iter().filter(|c| c.body.as_ref().map(|b| b.contains(&|g| matches!(g, GoalSpec::Cut))).unwrap_or(false)).count() as u64;
+    // the history is cut at every change of the knowledge base: query handles borrow it
+    let mut i = 0;
+    while i < mops.len() {
+        // (parse_query resets the variable counter like every query constructor, so parsing is also
+        // done between segments, when no query is live)
+        let end = mops[i..].iter().position(|m| matches!(m, MOp::KbMutate { .. } | MOp::ParseTexts { .. })).map(|p| i + p).unwrap_or(mops.len());
+        run_segment(scn, &kb, &mops[i..end], t);
+        if end < mops.len() {
+            match &mops[end] {
+                MOp::KbMutate { kind, q } => mutate_kb(&mut kb, scn, *kind, *q, t),
+                MOp::ParseTexts { seed } => parse_texts(*seed, scn, t),
+                _ => {}
+            }
+        }
+        i = end + 1;
+    }
+}
+
+fn run_segment(scn: &Scenario, kb: &KnowledgeBase, mops: &[MOp], t: &mut Tally) {
     let mut handles: BTreeMap<usize, Handle> = BTreeMap::new();
     let mut newest: Option<usize> = None;
     let mut ended: BTreeMap<usize, bool> = BTreeMap::new();
@@ -314,7 +432,7 @@ fn run_scenario(scn: &Scenario, mops: &[MOp], t: &mut Tally) {
             MOp::Q(Op::New { h, q }) => {
                 let spec = &scn.queries[*q];
                 let goal = spec.to_suiron();
-                let sn = make_base_node(Rc::new(goal.clone()), &kb);
+                let sn = make_base_node(Rc::new(goal.clone()), kb);
                 handles.insert(*h, Handle { goal, sn, class: spec.class });
                 newest = Some(*h);
                 ended.insert(*h, false);
@@ -401,6 +519,8 @@ fn run_scenario(scn: &Scenario, mops: &[MOp], t: &mut Tally) {
                 start_query();
                 let _ = query_stopped();
             }
+            MOp::KbMutate { .. } => {}
+            MOp::ParseTexts { .. } => {}
         }
     }
 }
@@ -443,7 +563,7 @@ fn main() {
     // Miri reports threads that are alive when main returns
     std::thread::sleep(Duration::from_millis(1100));
     eprintln!(
-        "TALLY part={} first={} count={} ops={} answers={} timer_during={} timer_after={} timer_cancelled={} solve_calls={} solve_timeouts={} reasks={} cut_rules={}",
-        part, first, count, t.ops, t.answers, t.timer_fired_during_search, t.timer_fired_after, t.timer_cancelled, t.solve_calls, t.solve_timeouts, t.reasks_after_none, t.cut_rules
+        "TALLY part={} first={} count={} ops={} answers={} timer_during={} timer_after={} timer_cancelled={} solve_calls={} solve_timeouts={} reasks={} cut_rules={} kb_mutations={} parsed={}",
+        part, first, count, t.ops, t.answers, t.timer_fired_during_search, t.timer_fired_after, t.timer_cancelled, t.solve_calls, t.solve_timeouts, t.reasks_after_none, t.cut_rules, t.kb_mutations, t.parsed
     );
 }
